@@ -3,4 +3,4 @@
 cd "$(dirname "$0")/.."
 git -C /repo apply "$PWD/seeded/$1/patch.diff" || exit 2
 ./check "$2" --tier "${3:-quick}" 2>&1 | grep -v conda | grep "VIOLATION\|OK\|FAILED" | cut -c1-260
-git -C /repo checkout -- . ; git -C /repo status --short | head -3
+git -C /repo apply -R "$PWD/seeded/$1/patch.diff" 2>/dev/null; git -C /repo checkout -- . ; git -C /repo status --short | head -3
